@@ -79,12 +79,14 @@ def one(patch: Path):
     root.mkdir(parents=True)
     try:
         shutil.copytree("/repo/pipefunc", root / "pipefunc", ignore=shutil.ignore_patterns("__pycache__"))
+        meta = patch.parent / "meta.json"
+        m = json.loads(meta.read_text()) if meta.is_file() else {}
         a = subprocess.run(["patch", "-p1", "-s", "-d", str(root)], stdin=open(patch), capture_output=True, text=True)
         base = None
-        if a.returncode != 0:
-            meta = patch.parent / "meta.json"
-            m = json.loads(meta.read_text()) if meta.is_file() else {}
-            cands = [m.get("rebased_on"), m.get("confirmed_on"), m.get("base"), "e2e50dc"]
+        if a.returncode != 0 or m.get("evaluate_on"):
+            # "evaluate_on": the change still applies but is a violation only on the tree it was confirmed on (a later repair
+            # removed what it relied on)
+            cands = [m.get("evaluate_on"), m.get("rebased_on"), m.get("confirmed_on"), m.get("base"), "e2e50dc"]
             for b in [c for c in cands if c]:
                 shutil.rmtree(root, ignore_errors=True)
                 root.mkdir(parents=True)
